@@ -50,6 +50,48 @@ def closure(mods, names, name, seen):
     return out + [name]
 
 
+def early(v):
+    f = lambda s: s.replace("${relpath}", ".").replace("${root}", ".")
+    return f(v) if isinstance(v, str) else [f(x) for x in v]
+
+
+def global_formula(p, b, G, cli):
+    """built-ins + context envs root->builder + {builder, app} + module globals in reverse selection order + inserts + -D"""
+    from .c03 import contexts_of, chain_of
+    ctxs = contexts_of(p)
+    chain = chain_of(ctxs, b["builder"])
+    if any("\\$" in json.dumps(ctxs.get(c, {}).get("env") or {}) for c in chain):
+        return None      # escaped references in context envs: early pass not emulated here
+    if any(c not in ctxs for c in chain if c != "default"):
+        return None
+    env = {"in": "\\${in}", "out": "\\${out}", "build-dir": "build", "outfile": "${bindir}/${app}.elf",
+           "project-root": G.get("project-root"), "root": ".", "LAZE_BIN": G.get("LAZE_BIN")}
+    ctxenv = None
+    for cn in reversed(chain):
+        own = ctxs.get(cn, {}).get("env")
+        own = None if own is None else [(k, early(v)) for k, v in own.items()]
+        if ctxenv is None:
+            ctxenv = dict(own) if own is not None else None
+        elif own is not None:
+            ctxenv = merge(ctxenv, own)
+        # a context without env under a parent with env inherits the parent's env
+    benv = dict(ctxenv or {})
+    benv["builder"] = b["builder"]
+    benv["app"] = b["app"]
+    env = merge(env, list(benv.items()))
+    for x in reversed(b["modules"]):
+        env = merge(env, x["env_global"])
+    app = b["modules"][0]
+    rel = app.get("relpath") or "."
+    env["relpath"] = rel
+    comps = [c for c in rel.split("/") if c not in ("", ".")]
+    env["relroot"] = "${root}" if not comps else "/".join(".." for _ in comps)
+    env["modules"] = [x["name"] for x in b["modules"] if not x["name"].startswith("context::")]
+    env["contexts"] = chain
+    env = merge(env, list(cli.items()))
+    return env
+
+
 def oracle(chk, p, r, m):
     if projrun.impl_status(r) != "ok":
         return
@@ -86,6 +128,14 @@ def oracle(chk, p, r, m):
                 chk.fail_oracle("layers:app-global-not-last", f"{key}: app defines {k}={v!r} globally but the link sees {got!r}", {"project": p})
             if isinstance(v, list) and not (isinstance(got, list) and got[len(got) - len(v):] == v):
                 chk.fail_oracle("layers:app-global-not-last", f"{key}: app appends {v} to {k} but the link sees {got!r}", {"project": p})
+        # the documented formula for the whole global env, from the YAML context envs and the dumped module layers
+        want = global_formula(p, b, G, cli)
+        if want is not None:
+            bad = sorted(k for k in set(want) | set(G) if want.get(k) != G.get(k))
+            if bad:
+                chk.fail_oracle("layers:global-env", f"{key}: {[(k, G.get(k), want.get(k)) for k in bad[:3]]} (got, documented)", {"project": p, "build": list(key)})
+            else:
+                chk.count("global-formula-checked")
         # module envs: ((global + exports of the import closure) + notify) + local
         for x in b["modules"]:
             if x["srcdir"] is None or isinstance(x["env_flat"], dict):
